@@ -21,8 +21,8 @@ using CoFutex = babylon::coroutine::Futex;
 
 namespace {
 
-enum Kind { K_LAUNCH, K_WAKE_ONE, K_WAKE_ALL, K_CANCEL, K_PAUSE, K_SET, K_AWAIT, nullK };
-const char* const kNames[] = {"launch", "wake_one", "wake_all", "cancel", "pause", "set_value", "await_suspended", nullptr};
+enum Kind { K_LAUNCH, K_WAKE_ONE, K_WAKE_ALL, K_CANCEL, K_PAUSE, K_SET, K_AWAIT, K_CHANGE, nullK };
+const char* const kNames[] = {"launch", "wake_one", "wake_all", "cancel", "pause", "set_value", "await_suspended", "change_value_and_wake_all", nullptr};
 
 // scenario 0: futex.  launch: a = waiter kind (0 plain, 1 observed, 2 cancellable), b = expected value matches?, c = executor
 // scenario 1: cancellable<future>. launch: a = unused, c = executor ; set_value a = which ; cancel a = which
@@ -48,13 +48,16 @@ struct WakeRec { bool all; uint64_t inv, ret; int n; bool done = false; };
 
 struct State {
   int scenario = 0;
-  CoFutex futex;
+  CoFutex* futex_ptr = new CoFutex();
+  CoFutex& futex = *futex_ptr;
   std::vector<Waiter*> waiters;
   std::vector<WakeRec*> wakes;
   babylon::ThreadPoolExecutor pool[2];
   int npool = 0;
   std::vector<babylon::Executor*> execs;
   int cancel_success = 0;
+  bool value_changed = false;    // a change_value_and_wake_all op completed (the word never matches again)
+  bool change_planned = false;
   // workload shaping only: lets a canceller and a waker start at the very
   // moment a waiter is known to be suspended
   std::mutex mu;
@@ -194,6 +197,18 @@ void do_op(int t, const Op& op) {
       set_crash_site(nullptr);
       break;
     }
+    case K_CHANGE: {
+      // the classic futex protocol of a waker: change the word, then wake everybody
+      if (S->scenario != 0) return;
+      S->futex.atomic_value().store(FV + 100, std::memory_order_seq_cst);
+      WakeRec* r = new WakeRec();
+      r->all = true; r->inv = stamp();
+      S->wakes.push_back(r);
+      r->n = S->futex.wake_all();
+      r->ret = stamp(); r->done = true;
+      S->value_changed = true;
+      break;
+    }
     case K_AWAIT: {
       // workload shaping only
       if (op.b < 0 || (size_t)op.b >= S->waiters.size()) return;
@@ -256,6 +271,23 @@ void gen(Rng& r, Plan& p, const GenParams& gp) {
     for (int i = 0; i < nw; i++) add(2, r.chance(4, 5) ? K_WAKE_ONE : K_WAKE_ALL, 0, 0, 0);
     return;
   }
+  if (scenario == 0 && r.chance(1, 8)) {
+    // targeted shape: waiters registering while the waker changes the word and wakes all
+    nwait = (int)r.range(1, 3); p.cfg["nwait"] = nwait;
+    for (int w = 0; w < nwait; w++) add(1 + (w % 2), K_LAUNCH, (int64_t)r.below(3), w, (int64_t)r.below(2) | (1 << 8));
+    if (r.chance(1, 2)) add(3 <= nthreads ? 3 : 2, K_PAUSE, (int64_t)r.range(1, 200), 0, 0);
+    add(3 <= nthreads ? 3 : 2, K_CHANGE, 0, 0, 0);
+    return;
+  }
+  if (scenario == 0 && r.chance(1, 8)) {
+    // targeted shape: the client destroys the futex as soon as every waiter has
+    // finished, while a canceller may still be in the tail of its call
+    nwait = (int)r.range(1, 2); p.cfg["nwait"] = nwait;
+    p.cfg["early_destroy"] = 1;
+    for (int w = 0; w < nwait; w++) add(1, K_LAUNCH, 2, w, (int64_t)r.below(2) | (1 << 8));
+    for (int w = 0; w < nwait; w++) add(2 + (w % 2 && nthreads >= 3 ? 1 : 0), K_CANCEL, 0, w, 0);
+    return;
+  }
   // waiter attributes live in the launch op: a = kind, b = waiter index, c = executor | match<<8
   for (int w = 0; w < nwait; w++) {
     int t = (int)r.range(1, nthreads);
@@ -272,6 +304,7 @@ void gen(Rng& r, Plan& p, const GenParams& gp) {
       if (k < 4) add(t, K_WAKE_ONE, 0, 0, 0);
       else if (k < 6) add(t, K_WAKE_ALL, 0, 0, 0);
       else if (k < 9) add(t, K_CANCEL, 0, (int64_t)r.below((uint64_t)nwait), 0);
+      else if (r.chance(1, 2)) add(t, K_CHANGE, 0, 0, 0);
       else add(t, K_PAUSE, (int64_t)r.range(1, 300), 0, 0);
     } else {
       if (k < 4) add(t, K_SET, 0, (int64_t)r.below((uint64_t)nwait), 0);
@@ -300,6 +333,7 @@ void run(const Plan& p) {
     for (auto& op : th) {
       if (op.kind == K_LAUNCH && op.b >= 0 && op.b < nwait) { Waiter* w = s.waiters[(size_t)op.b]; w->kind = (int)(op.a % 3); w->exec = (int)(op.c & 0xf); w->inner_exec = (int)((op.c >> 4) & 0xf) - 1; w->match = ((op.c >> 8) & 1) != 0; any_launch = true; }
       if (op.kind == K_CANCEL && op.b >= 0 && op.b < nwait) s.waiters[(size_t)op.b]->cancel_targeted = true;
+      if (op.kind == K_CHANGE) s.change_planned = true;
     }
   if (!any_launch) return;
   int execs = (int)p.get("execs", 0);
@@ -318,6 +352,27 @@ void run(const Plan& p) {
 
   hx::Workers w;
   w.start(p, [](int t, const Op& op) { do_op(t, op); }, 1);
+  if (p.get("early_destroy", 0) && s.scenario == 0) {
+    // legal only for plans whose remaining ops cannot touch the futex: launches and cancels
+    bool only = true; int planned = 0;
+    for (auto& th : p.threads) for (auto& op : th) { if (op.kind == K_LAUNCH) planned++; else if (op.kind != K_CANCEL && op.kind != K_PAUSE) only = false; }
+    if (only && planned > 0) {
+      await_event([&] { int fin = 0; for (Waiter* x : s.waiters) if (x->finished) fin++; return fin >= planned; });
+      int fin = 0; for (Waiter* x : s.waiters) if (x->finished) fin++;
+      if (fin >= planned) {
+        probe("futex_destroyed_early");
+        delete s.futex_ptr;
+        w.join();
+        for (Waiter* x : s.waiters) if (x->launched) x->fut.get();
+        if (s.npool) s.pool[0].stop();
+        newthread.join();
+        while (others_alive() > 0) ::usleep(1000);
+        size_t l1 = live_slots(nodebox);
+        if (l1 != live0) fail("leak", "futex-node-slot", "%zu DepositBox<Futex::Node> slots were live before the run and %zu after everything finished", live0, l1);
+        return;
+      }
+    }
+  }
   w.join();
   wait_idle();
 
@@ -325,6 +380,8 @@ void run(const Plan& p) {
     // --- oracle at quiescence (no wake/cancel in progress, every launched coroutine ran as far as it can)
     for (Waiter* x : s.waiters) {
       if (!x->launched || x->finished) continue;
+      if (s.value_changed)
+        fail("lost-wakeup", "futex-value-change", "waiter %d is suspended although the futex word was changed and wake_all() returned afterwards: either it suspended on a non-matching value or the wake missed it (check and enqueue are not atomic)", x->idx);
       if (!x->match) fail("suspended-on-mismatch", "futex-wait", "waiter %d did not finish although its expected value never matched", x->idx);
       // still suspended. Was there a wake that should have taken it?
       if (x->kind == 0 || x->cancel_targeted) continue;  // suspension moment unknown / may be being cancelled
@@ -361,7 +418,7 @@ void run(const Plan& p) {
       if (x->match && !x->cancel_won && (x->kind == 0 || x->suspended)) resumed_by_wake++;
     }
     // waiters of kind 0 that matched are always suspended (value never changes)
-    if (wake_returns != resumed_by_wake)
+    if (!s.change_planned && wake_returns != resumed_by_wake)
       fail("wake-count", "futex", "wake_one/wake_all reported %d resumptions in total but %d suspended waiters were resumed by wakes (cancels won: %d)", wake_returns, resumed_by_wake, s.cancel_success);
     if (s.futex.wake_one() != 0 || s.futex.wake_all() != 0) fail("wake-count", "futex", "wake on an empty futex reported a resumption");
   } else {
